@@ -223,7 +223,7 @@ def receive_claims(run, ex, W, w0, p, kind, label, packet):
     if deps:
         d = ex.deref_val(p, deps[0])
         claim += [z3.BoolVal(len(deps) == 1), is_bridge, B.fld(ex, p, d, 'amount', 'u128') == amt, W.addr(p, B.fld(ex, p, d, 'bridge_address', 'Address')) == recipient,
-                  W.asset(p, B.fld(ex, p, d, 'asset', 'Denom')) == asset, z3.BoolVal(len(eff['events']) == len(w0['events']) + 1)]
+                  W.asset(p, B.fld(ex, p, d, 'asset', 'Denom')) == asset, z3.Select(w0['bridge_asset'], recipient) == asset, z3.BoolVal(len(eff['events']) == len(w0['events']) + 1)]
     else:
         claim += [z3.Not(is_bridge), z3.BoolVal(len(eff['events']) == len(w0['events']))]
     run.prove(f'successful receive => recipient credited exactly the packet amount; escrow released exactly that amount for a returning asset, else asset registered; a bridge recipient gets exactly one deposit of that amount {label}',
